@@ -129,7 +129,8 @@ def prepare_workers(prop, n, first):
                      timeout=1800)
     if rc != 0:
         log(out[-6000:])
-        raise SystemExit("INCONCLUSIVE: harness crate does not build against /repo (exit 2)")
+        log("INCONCLUSIVE: harness crate does not build against /repo")
+        sys.exit(2)
     clean_harness_artifacts(dirs[0])
     for d in dirs[1:]:
         if d.exists():
